@@ -52,10 +52,9 @@ Fixpoint c03_calls (conf : sconf) (o : oracle) (t : list ev) (inp : option cin) 
   | _ :: r => c03_calls conf o r inp round authd reg est_seen
   end.
 
-Definition c03_check (c : scase) : bool :=
-  let ob := k_obs c in
+Definition c03_check_gen (conf : sconf) (o : oracle) (ob : obs) : bool :=
   let ests := filter (is_sent_state SEstablished) (ob_wire ob) in
-  match c03_calls (k_conf c) (oracle_of c) (ob_calls ob) None 0 None None (has_est (ob_wire ob)) with
+  match c03_calls conf o (ob_calls ob) None 0 None None (has_est (ob_wire ob)) with
   | None => false
   | Some reg =>
       match ests with
@@ -64,6 +63,7 @@ Definition c03_check (c : scase) : bool :=
       | _ => false
       end
   end.
+Definition c03_check (c : scase) : bool := c03_check_gen (k_conf c) (oracle_of c) (k_obs c).
 Definition c03_proj (ob : obs) : list ev :=
   (* C03 does not talk about encryption: the enc fields are blanked *)
   flat_map (fun e => match e with
@@ -171,10 +171,11 @@ Definition c10_ev_ok (conf : sconf) (e : ev) : bool :=
                   then mem enc (sc_enc conf) else true
   | _ => true
   end.
-Definition c10_check (c : scase) : bool :=
-  if c10_pre (k_conf c)
-  then forallb (c10_ev_ok (k_conf c)) (ob_wire (k_obs c)) && forallb (c10_ev_ok (k_conf c)) (ob_calls (k_obs c))
+Definition c10_check_gen (conf : sconf) (ob : obs) : bool :=
+  if c10_pre conf
+  then forallb (c10_ev_ok conf) (ob_wire ob) && forallb (c10_ev_ok conf) (ob_calls ob)
   else true.
+Definition c10_check (c : scase) : bool := c10_check_gen (k_conf c) (k_obs c).
 Definition c10_proj (ob : obs) : list (nat * string) :=
   flat_map (fun e => match e with
                      | AuthCall _ _ _ enc => [(0, enc)] | RegCall _ enc => [(1, enc)]
